@@ -145,7 +145,13 @@ def gen_program(seed: int) -> Dict[str, Any]:
     order = rs.shuffled(entities)
     for e in order:
         ops.append({"op": "add", "target": e})
-    if len(plain) > 1 and rs.chance(0.25):
+    # the script may have assembled (or even written) the mesh before its final edits:
+    # whatever it did before, the file must render the model as it stands at the last write
+    early = rs.weighted([("none", 6), ("assemble", 2), ("write", 1)])
+    late_ops: List[Dict[str, Any]] = []
+    if early != "none":
+        ops.append({"op": "assemble"} if early == "assemble" else {"op": "write", "path": DICT + ".early"})
+    if len(plain) > 1 and rs.chance(0.25 if early == "none" else 0.6):
         ops.append({"op": "delete", "target": rs.pick(plain)})
     used = sorted({(op["name"]) for op in ops if op["op"] in ("patch", "shape_patch")})
     nm = rs.weighted([(0, 5), (1, 3), (2, 1)])
@@ -167,6 +173,9 @@ def gen_program(seed: int) -> Dict[str, Any]:
         ops.append({"op": "setting", "key": "scale", "value": rs.pick([0.001, 1, 0.5])})
     if rs.chance(0.15):
         ops.append({"op": "setting", "key": "mergeType", "value": "points"})
+    if early != "none":
+        # edits made on an assembled mesh take effect at the next assembly
+        ops.append(rs.pick([{"op": "clear"}, {"op": "backport"}]))
     ops.append({"op": "write", "path": DICT, "debug": VTK if rs.chance(0.7) else None})
     return {"ops": ops}
 
